@@ -71,24 +71,25 @@ CLAIMED["C01"] = dict(
     technique="per-program translation validation with two Coq semantics (Sem/Src.v on the real typed source tree, Sem/GoSem.v on the real emitted Go AST) evaluated in coqc; both semantics validated against outputs recorded from real Go; general pass-correctness theorems open; generators include the position x feature matrix (lib/matrixgen.py: every construct a pass must rewrite in every syntactic position)",
     text='Every run compiles type-directed generated programs (probes in every position, pattern matrices called on value grids, closures, refs, vectors, trait objects, failing operations) and the 74 corpus programs with the real compiler, reads the real TAST and Go AST back and executes both in Coq; stdout and the way the program ends must agree, and corpus programs must reproduce the output recorded from real Go. The unbounded theorem (composition of pass correctness) is not proved; the claimed level is per-program validation with machine-checked executable semantics.',
     design_ref="DESIGN.md §4 C01",
-    note=TRUST + " Sem/GoSem.v is a model of Go (slices immutable, no floats, one goroutine schedule); Sem/Src.v is the source-level meaning; both reproduce the recorded real-Go output of 63-66 corpus programs. This is validation per program, not a proof about all programs.",
+    note=TRUST + " Sem/GoSem.v is a model of Go (no floats, one goroutine schedule); Sem/Src.v is the source-level meaning; both reproduce the recorded real-Go output of 63-66 corpus programs. This is validation per program, not a proof about all programs.",
 )
 CLAIMED["C08"] = dict(
     category="translation_validation",
     technique="per-program translation validation with two Coq semantics (Sem/Src.v on the real typed source tree, Sem/GoSem.v on the real emitted Go AST) evaluated in coqc; both semantics validated against outputs recorded from real Go; general pass-correctness theorems open; the closure sub-matrix (captures of every kind, closures in struct fields, function values, closures using capture-free closures)",
     text='Closure-focused programs in which each captured variable occurs in exactly one syntactic position of the closure body (match arms incl. default, while condition/body, if, nested closures, tuple, enum match, captured closures and trait objects) are compiled and the real TAST vs real Go AST behaviours compared in Coq. lift_correct is not proved; closures in function-typed positions are a known finding.',
     design_ref="DESIGN.md §4 C08",
-    note=TRUST + " Sem/GoSem.v is a model of Go (slices immutable, no floats, one goroutine schedule); Sem/Src.v is the source-level meaning; both reproduce the recorded real-Go output of 63-66 corpus programs. This is validation per program, not a proof about all programs.",
+    note=TRUST + " Sem/GoSem.v is a model of Go (no floats, one goroutine schedule); Sem/Src.v is the source-level meaning; both reproduce the recorded real-Go output of 63-66 corpus programs. This is validation per program, not a proof about all programs.",
 )
 CLAIMED["C09"] = dict(
     category="translation_validation",
-    technique="per-program translation validation with two Coq semantics (Sem/Src.v on the real typed source tree, Sem/GoSem.v on the real emitted Go AST) evaluated in coqc; both semantics validated against outputs recorded from real Go; plus a Coq model of anf.rs (continuation-passing, explicit gensym counter) with the theorem that A-normalisation keeps every operation exactly once, in left-to-right order, inside the same branch, the model being compared node for node with the real A-normal form of every function",
+    technique="per-program translation validation with two Coq semantics (Sem/Src.v on the real typed source tree, Sem/GoSem.v on the real emitted Go AST) evaluated in coqc; both semantics validated against outputs recorded from real Go; plus a Coq model of anf.rs (continuation-passing, explicit gensym counter) with the theorem that A-normalisation keeps every operation exactly once, in left-to-right order, inside the same branch, the model being compared node for node with the real A-normal form of every function; plus a Coq mirror of the effect classification of dead-code elimination (go/dce.rs) with the theorem that what it calls effect-free is unobservable under Sem/GoSem.v, compared with the real classification (goml_verif hook) on every expression and statement of every emitted function",
     text="Programs with printing probes around operands, arguments, conditions and branches, a systematic matrix of unit-typed effect expressions x statement positions, Ref updates and failing operations are compiled; order and multiplicity of effects and the failure point of the real Go AST (after ANF, Go generation, DCE) must equal the typed source program's under the Coq semantics. "
          "anf_preserves_meaning (no axioms): for EVERY interpretation of literals and operations (calls, arithmetic, construction, trait-object calls, spawning: anything with evaluated operands, free to print, update the heap or fail), of conditions and of arm selection, if the lifted body evaluates to a value or a run-time failure then the model's A-normal form evaluates to the same value in the same world or fails in the same world (registers agree except for the temporaries), under a decidable well-formedness condition that is checked on every real function body; proved through anf_is_wrap_of_flat (the continuation-passing model equals a first-order description). "
          "anf_keeps_every_operation_once_in_order / anf_in_context_keeps_order (no axioms): for every lifted body, counter value and continuation that performs the received operation first, the operation trace of the model's A-normal form is the left-to-right operands-first trace of the source, with if/while/match branches kept apart. The model (C09/Anf.v) must equal the real A-normal form (names of temporaries included) for every function of every generated and corpus program. "
-         "Go generation and DCE are covered by translation validation only; && / || evaluation of both operands is a known finding (short_circuit_refuted).",
+         "effect_free_expression_is_unobservable / effect_free_statement_is_unobservable (no axioms): for every Go expression and statement that has_effects / stmt_has_effects (C09/Dce.v, equal to expr_has_side_effects / stmt_has_side_effects on every node of every emitted function) classify as effect-free, in every environment, state and fuel: if it evaluates, standard output is unchanged and the heap only extended; if it fails, it is a nil dereference or failed type assertion with the output unchanged, never an index or a division. "
+         "Go generation and the use DCE makes of the classification (liveness) are covered by translation validation only; && / || evaluation of both operands is a known finding (short_circuit_refuted).",
     design_ref="DESIGN.md §4 C09",
-    note=TRUST + " Sem/GoSem.v is a model of Go (slices immutable, no floats, one goroutine schedule); Sem/Src.v is the source-level meaning; both reproduce the recorded real-Go output of 63-66 corpus programs. This is validation per program, not a proof about all programs.",
+    note=TRUST + " Sem/GoSem.v is a model of Go (no floats, one goroutine schedule); Sem/Src.v is the source-level meaning; both reproduce the recorded real-Go output of 63-66 corpus programs. This is validation per program, not a proof about all programs.",
 )
 
 CLAIMED["C12"] = dict(
@@ -198,9 +199,9 @@ def main():
         "setup_cmd": "./check setup",
         "hooks": {
             "guard": "goml_verif",
-            "enable": "RUSTFLAGS='--cfg goml_verif' (set by lib/vlib.py for every harness build); no hook is currently present in /repo — all needed functions are public",
+            "enable": "RUSTFLAGS='--cfg goml_verif' (set by lib/vlib.py for every harness build); one hook: crates/compiler/src/go/dce.rs verif_expr_has_side_effects / verif_stmt_has_side_effects (pub wrappers of the private effect classification of dead-code elimination, used by C09); crates/compiler/Cargo.toml declares the cfg name in [lints.rust]",
             "baseline_off_cmd": "cd /repo && cargo test --workspace --no-fail-fast --offline",
-            "source_commits": [],
+            "source_commits": ["66aa15b566f86d8f2ed29cb4b5073841d04a44b9"],
             "add_only": True,
         },
         "engines": [
